@@ -27,10 +27,12 @@ func (t *Throttle) Add(cb func()) {
 
 	if t.running >= t.limit {
 		t.queue = append(t.queue, cb)
+		verifNote("thrAdd", "thr", verifID(t), "limit", t.limit, "running", t.running, "qlen", len(t.queue), "started", false)
 		t.mu.Unlock()
 		return
 	}
 	t.running++
+	verifNote("thrAdd", "thr", verifID(t), "limit", t.limit, "running", t.running, "qlen", len(t.queue), "started", true)
 	t.mu.Unlock()
 
 	cb()
@@ -51,12 +53,14 @@ func (t *Throttle) Done() {
 
 	if len(t.queue) == 0 {
 		t.running--
+		verifNote("thrDone", "thr", verifID(t), "limit", t.limit, "running", t.running, "qlen", 0, "next", false)
 		t.mu.Unlock()
 		return
 	}
 
 	cb := t.queue[0]
 	t.queue = t.queue[1:]
+	verifNote("thrDone", "thr", verifID(t), "limit", t.limit, "running", t.running, "qlen", len(t.queue), "next", true)
 	t.mu.Unlock()
 	go cb()
 }
